@@ -592,13 +592,13 @@ fn c07_ser_flags_body<const N: usize>() {
 
 #[kani::proof]
 #[kani::unwind(19)]
-#[kani::stub(std::vec::Vec::push, crate::vstubs::vec_push)]
 fn c07_ser_flags_n1() {
     c07_ser_flags_body::<1>()
 }
 
 #[kani::proof]
 #[kani::unwind(35)]
+#[kani::stub(std::vec::Vec::new, crate::vstubs::vec_new)]
 #[kani::stub(std::vec::Vec::push, crate::vstubs::vec_push)]
 fn c07_ser_flags_n2() {
     c07_ser_flags_body::<2>()
